@@ -1348,7 +1348,7 @@ def k_fragment_is_recursive(R, F, S):
     cyc = z3.Or(*[z3.And(DF[a][b], z3.BoolVal(True) if a == b else Rm[b][a]) for a in range(F) for b in range(F)])
     R.obligations += 1
     sol = z3.Solver()
-    sol.set('timeout', 120000)
+    sol.set('timeout', 600000)
     sol.add(*dom)
     sol.add(cyc)
     t0 = __import__('time').time()
